@@ -352,19 +352,36 @@ Proof.
 Qed.
 
 (* ---------- the instance key ---------- *)
-(* finding F-C01-1: node "a", id "b.c" and node "a.b", id "c" share the key "a.b.c" *)
+Lemma key_eqb_eq a b : key_eqb a b = true <-> a = b.
+Proof.
+  destruct a as [a1 a2], b as [b1 b2]. unfold key_eqb. cbn [fst snd].
+  rewrite andb_true_iff, !beq_eq. split; [intros [-> ->]; reflexivity | intros H; inversion H; now split].
+Qed.
+Lemma key_eqb_refl a : key_eqb a a = true.
+Proof. now apply key_eqb_eq. Qed.
+
+(* the key struct{node, serviceID} determines the instance, unconditionally *)
+Theorem inst_key_injective n1 s1 n2 s2 : inst_key n1 s1 = inst_key n2 s2 -> n1 = n2 /\ s1 = s2.
+Proof. unfold inst_key. intros H. inversion H. now split. Qed.
+
+(* finding F-C01-1, repaired in /repo by the fix: commit f815d97: the key used to be the string
+   Node + "." + ServiceID; node "a", id "b.c" and node "a.b", id "c" share the key "a.b.c" *)
 Theorem inst_key_collision_refuted :
-  exists n1 s1 n2 s2, (n1, s1) <> (n2, s2) /\ inst_key n1 s1 = inst_key n2 s2.
+  exists n1 s1 n2 s2, (n1, s1) <> (n2, s2) /\ inst_key_unrepaired n1 s1 = inst_key_unrepaired n2 s2.
 Proof.
   exists (bs "a"), (bs "b.c"), (bs "a.b"), (bs "c"). split; [vm_compute; discriminate | vm_compute; reflexivity].
 Qed.
 
-(* ... with the effect that an unhealthy instance is routed because a namesake is healthy *)
+(* ... with the effect that an unhealthy instance was routed because a key namesake is healthy
+   ([svc_config_key_unrepaired]); the repaired pipeline pushes only the healthy one's command *)
 Theorem svc_config_collision_refuted :
   exists prefix status checks catalog e line,
     In e catalog /\ In line (e_cmds e) /\
     ~ healthy checks status false (e_node e) (e_sid e) /\
-    exists text, svc_config prefix status false checks catalog = Ok text /\ In line (split_byte text 10).
+    (exists text, svc_config_key_unrepaired prefix status false checks catalog = Ok text
+                  /\ In line (split_byte text 10)) /\
+    (exists text, svc_config prefix status false checks catalog = Ok text
+                  /\ ~ In line (split_byte text 10) /\ text <> []).
 Proof.
   set (t1 := [bs "urlprefix-/one"]). set (t2 := [bs "urlprefix-/two"]).
   set (e1 := mkEntry (bs "a") (bs "b.c") (bs "svc-a") t1 [bs "route add svc-a /one http://10.0.0.1:8001/"]).
@@ -373,26 +390,11 @@ Proof.
     [mkCheck (bs "a") (bs "service:b.c") (bs "b.c") (bs "svc-a") (bs "critical") t1;
      mkCheck (bs "a.b") (bs "service:c") (bs "c") (bs "svc-a") (bs "passing") t2],
     [e1; e2], e1, (bs "route add svc-a /one http://10.0.0.1:8001/").
-  split; [now left|]. split; [now left|]. split.
+  split; [now left|]. split; [now left|]. split; [|split].
   - intros H. apply healthy_b_spec in H. vm_compute in H. discriminate.
   - eexists. split; [vm_compute; reflexivity|]. vm_compute. tauto.
-Qed.
-
-Lemma inst_key_same_node n s1 s2 : inst_key n s1 = inst_key n s2 -> s1 = s2.
-Proof. unfold inst_key. intros H. apply app_inv_head in H. now inversion H. Qed.
-
-(* node names without a dot: the key determines the instance *)
-Theorem inst_key_injective_on_domain n1 s1 n2 s2 :
-  ~ In 46 n1 -> ~ In 46 n2 -> inst_key n1 s1 = inst_key n2 s2 -> n1 = n2 /\ s1 = s2.
-Proof.
-  unfold inst_key. revert n2. induction n1 as [|x n1 IH]; intros [|y n2] H1 H2 H; cbn [app] in H.
-  - inversion H. now split.
-  - inversion H; subst. elim H2. now left.
-  - inversion H; subst. elim H1. now left.
-  - inversion H; subst. destruct (IH n2) as [-> ->]; try assumption.
-    + intros Hin. apply H1. now right.
-    + intros Hin. apply H2. now right.
-    + now split.
+  - eexists. split; [vm_compute; reflexivity|]. split; [|discriminate].
+    vm_compute. intros [H|[]]. discriminate.
 Qed.
 
 (* ---------- config lines: provenance ---------- *)
@@ -404,7 +406,7 @@ Proof.
   - intros [H|[]] Hk. inversion H; subst. destruct Hk as [<-|[]]. now right.
   - destruct (beq n0 name) eqn:E.
     + apply beq_eq in E. subst n0. intros [H|H] Hk.
-      * inversion H; subst. destruct (existsb (beq k) ks0) eqn:Ex.
+      * inversion H; subst. destruct (existsb (key_eqb k) ks0) eqn:Ex.
         -- left. exists ks0. split; [now left | exact Hk].
         -- apply in_app_or in Hk as [Hk|[<-|[]]]; [left; exists ks0; split; [now left | exact Hk] | now right].
       * left. exists ks. split; [now right | exact Hk].
@@ -435,12 +437,12 @@ Proof.
   induction svcs as [|e svcs IH]; intros ls x; cbn [service_entries].
   - intros H Hx. inversion H; subst. destruct Hx.
   - destruct (service_entries prefix keys svcs) as [rest| |] eqn:Er; cbn [bind]; try discriminate.
-    destruct (existsb (beq (inst_key (e_node e) (e_sid e))) keys) eqn:Ek.
+    destruct (existsb (key_eqb (inst_key (e_node e) (e_sid e))) keys) eqn:Ek.
     + unfold entry_cmds. destruct (Nat.eqb (length (e_cmds e)) (length (route_tags prefix (e_tags e)))) eqn:El;
         cbn [bind]; [|discriminate].
       intros H Hx. inversion H; subst. apply in_app_or in Hx as [Hx|Hx].
       * exists e. split; [now left|]. split; [exact Hx|]. split.
-        -- apply existsb_exists in Ek as [k [Hk Hb]]. apply beq_eq in Hb. now subst.
+        -- apply existsb_exists in Ek as [k [Hk Hb]]. apply key_eqb_eq in Hb. now subst.
         -- now apply PeanoNat.Nat.eqb_eq.
       * destruct (IH rest x eq_refl Hx) as [e' [Hin R]]. exists e'. split; [now right | exact R].
     + intros H Hx. inversion H; subst. destruct (IH ls x eq_refl Hx) as [e' [Hin R]].
@@ -507,44 +509,33 @@ Proof.
 Qed.
 
 (* The service-derived config of a registry state (checks, catalog): every line is a
-   command of a catalog entry whose key Node.ServiceID is the key of an instance that is
-   registered and healthy in that state and carries the tag prefix. *)
+   command of a catalog entry whose own instance (node, service id) is registered and healthy
+   in that state and carries the tag prefix.  (Since f815d97 the key is the pair, so this no
+   longer needs node names without dots.) *)
 Theorem svc_lines_from_healthy prefix status strict checks catalog ls x :
-  config_lines prefix catalog (watch_passing prefix status strict checks) = Ok ls ->
-  In x (sort_desc ls) ->
-  exists e n sid, In e catalog /\ In x (e_cmds e) /\
-                  inst_key (e_node e) (e_sid e) = inst_key n sid /\
-                  registered (checks_with_tag_prefix prefix checks) n sid /\
-                  healthy (checks_with_tag_prefix prefix checks) status strict n sid.
-Proof.
-  intros H Hx. apply (proj1 (sort_desc_in _ _)) in Hx.
-  destruct (config_lines_sound _ _ _ _ _ H Hx) as [e [svc [He [Hc [Hs [Hn [Hne [Hk Hl]]]]]]]].
-  unfold watch_passing in Hs. apply passing_iff_healthy in Hs as [Hin [Hsvc Hh]].
-  exists e, (c_node svc), (c_sid svc).
-  split; [exact He|]. split; [exact Hc|]. split; [exact Hk|]. split; [|exact Hh].
-  exists svc. split; [exact Hin|]. split; [split; reflexivity | exact Hsvc].
-Qed.
-
-(* ... so where keys determine instances (e.g. node names without dots), an instance that
-   is unhealthy in the observed state has none of its commands in the config pushed for
-   that state - unless another entry produces the very same command text *)
-Theorem unhealthy_not_in_config prefix status strict checks catalog ls x :
-  (forall e, In e catalog -> ~ In 46 (e_node e)) ->
-  (forall c, In c checks -> ~ In 46 (c_node c)) ->
   config_lines prefix catalog (watch_passing prefix status strict checks) = Ok ls ->
   In x (sort_desc ls) ->
   exists e, In e catalog /\ In x (e_cmds e) /\
             registered (checks_with_tag_prefix prefix checks) (e_node e) (e_sid e) /\
             healthy (checks_with_tag_prefix prefix checks) status strict (e_node e) (e_sid e).
 Proof.
-  intros Hcat Hchk H Hx.
-  destruct (svc_lines_from_healthy _ _ _ _ _ _ _ H Hx) as [e [n [sid [He [Hc [Hk [Hr Hh]]]]]]].
-  exists e. split; [exact He|]. split; [exact Hc|].
-  assert (~ In 46 n) as Hn.
-  { destruct Hr as [c [Hin [[Hcn _] _]]]. unfold checks_with_tag_prefix in Hin.
-    apply filter_In in Hin as [Hin _]. rewrite <- Hcn. now apply Hchk. }
-  destruct (inst_key_injective_on_domain _ _ _ _ (Hcat e He) Hn Hk) as [-> ->]. now split.
+  intros H Hx. apply (proj1 (sort_desc_in _ _)) in Hx.
+  destruct (config_lines_sound _ _ _ _ _ H Hx) as [e [svc [He [Hc [Hs [Hn [Hne [Hk Hl]]]]]]]].
+  unfold watch_passing in Hs. apply passing_iff_healthy in Hs as [Hin [Hsvc Hh]].
+  destruct (inst_key_injective _ _ _ _ Hk) as [En Es].
+  exists e. split; [exact He|]. split; [exact Hc|]. rewrite En, Es. split; [|exact Hh].
+  exists svc. split; [exact Hin|]. split; [split; reflexivity | exact Hsvc].
 Qed.
+
+(* an instance that is unhealthy in the observed state has none of its commands in the
+   config pushed for that state - unless another entry produces the very same command text *)
+Theorem unhealthy_not_in_config prefix status strict checks catalog ls x :
+  config_lines prefix catalog (watch_passing prefix status strict checks) = Ok ls ->
+  In x (sort_desc ls) ->
+  exists e, In e catalog /\ In x (e_cmds e) /\
+            registered (checks_with_tag_prefix prefix checks) (e_node e) (e_sid e) /\
+            healthy (checks_with_tag_prefix prefix checks) status strict (e_node e) (e_sid e).
+Proof. exact (svc_lines_from_healthy prefix status strict checks catalog ls x). Qed.
 
 (* ---------- config lines: completeness ---------- *)
 Lemma smap_add_has m name k : exists ks, In (name, ks) (smap_add m name k) /\ In k ks.
@@ -552,8 +543,8 @@ Proof.
   induction m as [|[n0 ks0] m IH]; cbn [smap_add].
   - exists [k]. split; now left.
   - destruct (beq n0 name) eqn:E.
-    + apply beq_eq in E. subst n0. destruct (existsb (beq k) ks0) eqn:Ex.
-      * exists ks0. split; [now left|]. apply existsb_exists in Ex as [k' [Hk Hb]]. apply beq_eq in Hb. now subst.
+    + apply beq_eq in E. subst n0. destruct (existsb (key_eqb k) ks0) eqn:Ex.
+      * exists ks0. split; [now left|]. apply existsb_exists in Ex as [k' [Hk Hb]]. apply key_eqb_eq in Hb. now subst.
       * exists (ks0 ++ [k]). split; [now left|]. apply in_or_app. right. now left.
     + destruct IH as [ks [Hin Hk]]. exists ks. split; [now right | exact Hk].
 Qed.
@@ -563,7 +554,7 @@ Proof.
   induction m as [|[n0 ks0] m IH]; cbn [smap_add]; [intros []|].
   intros [H|H] Hk.
   - inversion H; subst. destruct (beq n name) eqn:E.
-    + destruct (existsb (beq k) ks).
+    + destruct (existsb (key_eqb k) ks).
       * exists ks. split; [now left | exact Hk].
       * exists (ks ++ [k]). split; [now left|]. apply in_or_app. now left.
     + exists ks. split; [now left | exact Hk].
@@ -598,13 +589,13 @@ Proof.
   induction svcs as [|e0 svcs IH]; intros ls e x; cbn [service_entries]; [intros _ []|].
   destruct (service_entries prefix keys svcs) as [rest| |] eqn:Er; cbn [bind]; try discriminate.
   intros H [<-|Hin] Hk Hx.
-  - assert (existsb (beq (inst_key (e_node e0) (e_sid e0))) keys = true) as Ek.
-    { apply existsb_exists. exists (inst_key (e_node e0) (e_sid e0)). split; [exact Hk | apply beq_refl]. }
+  - assert (existsb (key_eqb (inst_key (e_node e0) (e_sid e0))) keys = true) as Ek.
+    { apply existsb_exists. exists (inst_key (e_node e0) (e_sid e0)). split; [exact Hk | apply key_eqb_refl]. }
     rewrite Ek in H. unfold entry_cmds in H.
     destruct (Nat.eqb (length (e_cmds e0)) (length (route_tags prefix (e_tags e0)))); cbn [bind] in H; [|discriminate].
     inversion H; subst. apply in_or_app. now left.
   - specialize (IH rest e x eq_refl Hin Hk Hx).
-    destruct (existsb (beq (inst_key (e_node e0) (e_sid e0))) keys).
+    destruct (existsb (key_eqb (inst_key (e_node e0) (e_sid e0))) keys).
     + destruct (entry_cmds prefix e0) as [cs| |]; cbn [bind] in H; try discriminate.
       inversion H; subst. apply in_or_app. now right.
     + inversion H; subst. exact IH.
@@ -642,19 +633,19 @@ Qed.
 (* The table side of "if and only if", over the generated commands: in a registry state
    whose instance is registered under the entry's service name, carries the prefix and is
    healthy, every command routecmd.build has for the entry is a line of the pushed config;
-   conversely every line comes from such an entry (up to the key, see F-C01-1). *)
+   conversely every line comes from such an entry. *)
 Theorem svc_lines_iff prefix status strict checks catalog ls x :
   config_lines prefix catalog (watch_passing prefix status strict checks) = Ok ls ->
   (In x (sort_desc ls) <->
    exists e svc, In e catalog /\ In x (e_cmds e) /\ e_sname e <> [] /\
                  In svc (watch_passing prefix status strict checks) /\
-                 c_sname svc = e_sname e /\
-                 inst_key (c_node svc) (c_sid svc) = inst_key (e_node e) (e_sid e)).
+                 c_sname svc = e_sname e /\ c_node svc = e_node e /\ c_sid svc = e_sid e).
 Proof.
   intros H. rewrite sort_desc_in. split.
   - intros Hx. destruct (config_lines_sound _ _ _ _ _ H Hx) as [e [svc [He [Hc [Hs [Hn [Hne [Hk Hl]]]]]]]].
+    destruct (inst_key_injective _ _ _ _ Hk) as [En Es].
     exists e, svc. repeat split; try assumption; congruence.
-  - intros [e [svc [He [Hc [Hne [Hs [Hn Hk]]]]]]].
+  - intros [e [svc [He [Hc [Hne [Hs [Hn [En Es]]]]]]]].
     apply (config_lines_complete _ _ _ _ e svc x H); try assumption; congruence.
 Qed.
 
@@ -674,5 +665,5 @@ Proof.
   apply (svc_lines_iff _ _ _ _ _ _ x H). exists e, svc.
   split; [exact He|]. split; [exact Hx|]. split; [exact Hne|]. split.
   - apply watch_passing_iff; rewrite Hnode, Hsid; [exact Htag|]. split; [exact Hs|]. split; [exact Hsvc | exact Hh].
-  - split; [exact Hn | now rewrite Hnode, Hsid].
+  - split; [exact Hn | split; [exact Hnode | exact Hsid]].
 Qed.
